@@ -32,7 +32,7 @@ def cmd_check(prop, tier, seed):
     if hasattr(mod, 'main'):
         return mod.main(tier, seed)
     subs = mod.subs(tier)
-    return engine.run_check(mod.PROPERTY, subs, tier, seed,
+    return engine.run_check(mod.PROPERTY, subs, tier, seed, level=getattr(mod, 'LEVEL', 'model_checking'),
                             assumptions=getattr(mod, 'ASSUMPTIONS', ()),
                             extra=getattr(mod, 'extra_evidence', lambda t: None)(tier))
 
